@@ -39,7 +39,8 @@ def floors(tier):
 def plan(tier, seed):
     rng = random.Random(f'C09-plan-{seed}')
     base = [{'p': 2, 'q': 0, 'r': 0}, {'p': 2, 'q': 0, 'r': 1}, {'p': 1, 'q': 1, 'r': 0}, {'p': 3, 'q': 0, 'r': 0},
-            {'signature': [0, 1, -1]}, {'p': 1, 'q': 0, 'r': 1}, {'p': 3, 'q': 0, 'r': 1}, {'named': '2DPGA'}]
+            {'signature': [0, 1, -1]}, {'p': 1, 'q': 0, 'r': 1}, {'p': 3, 'q': 0, 'r': 1}, {'named': '2DPGA'}, {'p': 6, 'q': 0, 'r': 0},
+            {'p': 4, 'q': 1, 'r': 1}]
     wrappers = [None, None, 'identity', 'wraps']
     H = []
     nseq, nthr, steps = (64, 24, 40) if tier == 'quick' else (6000, 1200, 50)
@@ -139,7 +140,9 @@ def make_history(rng, alg, cfg, nsteps):
             g = tuple(sorted(rng.sample(gs, rng.randint(1, 2))))
             pool.append(alg.indices_for_grades[g])
     else:
-        pool = [gen.random_subset(rng, canon, 3, 1) for _ in range(3)]
+        pool = [gen.random_subset(rng, canon, 3 if alg.d <= 4 else 2, 1) for _ in range(3)]
+        if alg.d >= 5 or rng.random() < 0.2:
+            pool[0] = (0,)          # a scalar-only operand (inverse of a scalar takes its own path in the d >= 6 scheme)
     opsel = rng.sample(BIN + UN, 4)
     if rng.random() < 0.6 and 'gp' not in opsel:
         opsel[0] = 'gp'
@@ -272,6 +275,8 @@ def describe(step):
 
 def instrument(alg):
     alg.numspace = monitors.RecordingNamespace(alg.numspace)
+    # the algebra's own shared multivectors (basis blades, pseudoscalar) are 'previously returned multivectors' too
+    alg._kvm_shared = [(m, list(m.values())) for m in list(alg.blades.blades.values())[:64]] + [(alg.pss, list(alg.pss.values()))]
     return alg
 
 
@@ -352,6 +357,7 @@ def run_sequential(h, ctx, ge):
         if (i + 1) % 25 == 0:
             check_snaps(ctx, snaps, cfg, hid, f'step{i}')
     check_snaps(ctx, snaps, cfg, hid, 'end')
+    check_snaps(ctx, alg._kvm_shared, cfg, hid, 'shared-blades')
     ctx.count('numspace_rebind_events_recorded_not_judged', len(alg.numspace.rebinds))
     if ctx.counters.get('histories', 0) % 8 == 1:
         ctx.sample({'config': name, 'history_seed': h['hseed'], 'first_steps': [describe(s) for s in steps[:4]]})
